@@ -1519,7 +1519,40 @@ def _g_rip(r, hostile):
   return _eudp(520, 520, body)
 
 
-_GRAMMARS = [("dhcp", _g_dhcp), ("tcpopt", _g_tcp), ("ip4opt", _g_ip4opts),
+_KNOWN_TYPES = [0x0800, 0x0806, 0x8035, 0x8100, 0x86dd, 0x8847, 0x8848,
+                0x88cc, 0x888e, 0x6558, 0x88a8, 0x9100, 0x0026, 0x05dc]
+
+
+def _g_gre(r, hostile):
+  """GRE with every flag combination and every payload type a tunnel
+  carries"""
+  flags = 0
+  kw = {}
+  if r.chance(0.3):
+    flags |= 0x2000
+    kw["key"] = r.randrange(2**32)
+  if r.chance(0.3):
+    flags |= 0x1000
+    kw["seq"] = r.randrange(2**32)
+  if r.chance(0.2):
+    flags |= 0x8000
+    kw["with_csum"] = True
+  if hostile:
+    flags |= r.pick([0, 0x4000, 0x0800, 0x0007, 0x00f8])
+  proto = r.pick(_KNOWN_TYPES + [r.randrange(65536)])
+  inner = r.pick([
+    _ip4(17, _udp(1234, 4321, b"tunnelled")),
+    _ip6(17, _udp6(1234, 4321, b"tunnelled")),
+    _ip6(58, _icmp6(128, 0, struct.pack("!HH", 1, 1) + b"ping")),
+    F.eth(M2, M1, F.ETH_IP, _ip4(17, _udp(1, 2, b"x"))),
+    _mpls(16, 0, 1, 64) + _ip4(17, _udp(1, 2, b"x")),
+    b"", r.randbytes(r.pick([1, 3, 20]))])
+  if hostile and r.chance(0.5):
+    inner = inner[:r.randrange(len(inner) + 1)]
+  return _eip(47, _gre(flags, proto, inner, **kw))
+
+
+_GRAMMARS = [("gre", _g_gre), ("dhcp", _g_dhcp), ("tcpopt", _g_tcp), ("ip4opt", _g_ip4opts),
              ("lldp", _g_lldp), ("ndp", _g_ndp), ("dns", _g_dns),
              ("igmp3", _g_igmp3), ("ip6ext", _g_ip6ext), ("stack", _g_stack),
              ("rip", _g_rip)]
@@ -1554,7 +1587,8 @@ def random_case(stepseed, j):
       k = r.randrange(14, len(f)) if len(f) > 14 else r.randrange(len(f))
       if r.chance(0.5) and k + 1 < len(f):
         v = r.pick([0, 1, 7, 8, 20, 28, 0xff, 0x100, 0x1ff, 0x7fff, 0x8000,
-                    0xfffe, 0xffff, len(f), len(f) - k, len(f) - k - 1])
+                    0xfffe, 0xffff, len(f), len(f) - k, len(f) - k - 1]
+                   + _KNOWN_TYPES)
         f[k] = (v >> 8) & 0xff
         f[k + 1] = v & 0xff
       else:
